@@ -262,11 +262,26 @@ def build_shapes(reg):
     c09.build_py(reg)
     reg.assume_all = saved
     c09.ensure_defined()
-    b = z3.Const("ax_ub", BytesSort)
-    # assumed contract of CPython's decoder: bytes.decode("utf8") accepts exactly complete well-formed UTF-8 (RFC 3629)
-    natives.AXIOMS["utf8_valid"] = [natives.utf8_valid(z3.Empty(BytesSort)),
-                                    z3.ForAll([b], natives.utf8_valid(b) == (c09.utf8_run(0, b, z3.Length(b)) == 0),
-                                              patterns=[natives.utf8_valid(b)])]
+    # assumed contract of CPython's decoder: bytes.decode("utf8") accepts exactly complete well-formed UTF-8 (RFC 3629).
+    # Used as explicit *instances* (hint utf8_decoder_agrees(b)), never as a quantified axiom next to the recursive
+    # definition of utf8_run (that combination makes z3 verdicts unstable).
+    natives.AXIOMS["utf8_valid"] = [natives.utf8_valid(z3.Empty(BytesSort))]
+
+    def lem_decoder(ex, state, b):
+        res = []
+        for g, a in alts_of(b):
+            if isinstance(a, VBytes):
+                res.append(z3.Implies(g, natives.utf8_valid(a.t) == (c09.utf8_run(0, a.t, z3.Length(a.t)) == 0)))
+        return VBool(z3.And(*res) if res else z3.BoolVal(True))
+    reg.lemma_fn("utf8_decoder_agrees", lem_decoder)
+
+    def lem_slice_concat(ex, state, p_, i, j):
+        """instance of the sequence lemma  0 <= i <= j <= len(p)  ==>  p[0:i] + p[i:j] == p[0:j]
+        (proved stand-alone in extra_checks: ws_lemma_obligations)"""
+        i, j, t = ex.num(i), ex.num(j), p_.t
+        return VBool(z3.Implies(z3.And(0 <= i, i <= j, j <= z3.Length(t)),
+                                z3.Concat(z3.Extract(t, 0, i), z3.Extract(t, i, j - i)) == z3.Extract(t, 0, j)))
+    reg.lemma_fn("seq_slice_concat", lem_slice_concat)
     reg.overrides[(P, "Utf8Validator")] = VClass("Utf8ValidatorIface")
     from pyvc import models as _m
 
@@ -282,3 +297,10 @@ def build_shapes(reg):
     models.CLASS_MODELS["XorMaskerNull"] = m_null_masker
     reg.overrides[(P, "create_xor_masker")] = VFunc("builtin", "autobahn.websocket.xormasker.create_xor_masker")
     reg.overrides[(P, "txaio")] = VModule("txaio")
+
+
+def ws_lemma_obligations():
+    p_ = z3.Const("lp", BytesSort)
+    i, j = z3.Ints("li lj")
+    return [("seq-slice-concat", ([0 <= i, i <= j, j <= z3.Length(p_)],
+                                  z3.Concat(z3.Extract(p_, 0, i), z3.Extract(p_, i, j - i)) == z3.Extract(p_, 0, j)))]
